@@ -399,7 +399,7 @@ class G:
         if k == 'moreLikeThisArr':   # documents in arrays, and in arrays nested in arrays
             return {'moreLikeThis': {'like': self.r.choice([[{self.field(): self.literal(w, depth + 1, True)}], [[{self.field(): self.literal(w, depth + 1, True)}]],
                                                             [[self.fieldref(), {self.field(): [[{self.field(): self.s_string(w)}]]}], []]])}}
-        if k == 'inNested': return {'in': {'path': self.opath(), 'value': [[self.literal(w, depth + 1, True), {self.field(): self.s_string(w)}], [self.fieldref()]]}}
+        if k == 'inNested': return {'in': {'path': self.opath(), 'value': [[self.literal(w, depth + 1, True), self.s_string(w)], [self.fieldref()], []]}}   # arrays in arrays; scalars only (the operator takes no documents)
         if k == 'geoWithin': return {'geoWithin': {'path': self.opath(), 'circle': {'center': {'type': 'Point', 'coordinates': [self.s_number(w), self.s_number(w)]}, 'radius': self.s_number(w)}}}
         if k == 'compound':
             d = {}
